@@ -55,6 +55,8 @@ def run(tier):
             for ipadd in ((1,) if quick and phase == "pflow" else (1, 0)):
                 tasks.append(dict(sid="jac[%s|%s|ipadd=%d]" % (c, phase, ipadd), case=c, phase=phase, ipadd=ipadd,
                                   maxcols=250 if quick else 1200))
+    for c in stock[:4 if quick else 20]:
+        tasks.append(dict(sid="jac[%s|tds|altered]" % c, case=c, phase="tds", ipadd=1, maxcols=250 if quick else 1200, alter_after_init=True))
     res = run_tasks("vh.pfdrv:jac_stock", tasks, nproc=NCPU, timeout=1800)
     worst = 0.0
     skipped = 0
